@@ -12,7 +12,7 @@ def _run(args):
 
 def pmap(fn, items, nproc=None, min_chunk=64):
     items = list(items)
-    nproc = nproc or min(12, os.cpu_count() or 1)
+    nproc = nproc or int(os.environ.get("VERIF_NPROC", 0)) or min(12, os.cpu_count() or 1)
     if nproc <= 1 or len(items) < 2 * min_chunk:
         return [fn(x) for x in items]
     _CTX["fn"] = fn
